@@ -9,4 +9,4 @@ VERIF_REPO=$wt VERIF_OUT=$out /verif/run.sh $prop $tier > /tmp/vt/log-rev-$commi
 nv=$(grep -c '^VIOLATION' /tmp/vt/log-rev-$commit-$prop.txt)
 if [ $rc -eq 1 ] && [ $nv -gt 0 ]; then echo "DETECTED revert of $commit by $prop $tier ($nv): $(grep '^VIOLATION' /tmp/vt/log-rev-$commit-$prop.txt | head -1 | cut -c1-260)";
 elif [ $rc -eq 0 ]; then echo "MISSED revert of $commit by $prop $tier"; else echo "ERROR rc=$rc"; tail -5 /tmp/vt/log-rev-$commit-$prop.txt; fi
-git -C /repo worktree remove --force $wt; rm -rf $out /verif/harness/bin/*alt.* /verif/harness/bin/vcheck-*-alt.* 2>/dev/null
+git -C /repo worktree remove --force $wt; hh=$(echo "$wt" | md5sum | cut -c1-8); rm -rf $out /verif/harness/bin/*alt.$hh* /verif/harness/bin/vcheck-*-alt.$hh* /verif/harness/bin/overlay-*-alt.$hh* 2>/dev/null
